@@ -7,6 +7,16 @@ BASE = ("cd /repo && /venv/bin/python -m pytest -ra -q -p no:cacheprovider --tim
         "--continue-on-collection-errors")
 
 CLAIMED = {
+    'C11': dict(
+        text="Docs.tla states the rules for stores and copies (a deep copy is a new store with disjoint tokens whose text is the span's text, a complete tree, equal both ways; an edit through one store leaves every other store's text and token identities untouched); copy.deepcopy of every model at every depth of Layout.tla documents - in both attribution modes and after hand-back-and-forth claim sequences that move placeholders - and of the repeated-field wrappers themselves, followed by edits on the copy and on the original and by inserting a copy, is recorded and validated by TLC.",
+        note="Documents of <= 2-3 (quick) / 4 lines; edits: token text changes, meta append/pop, spacing.",
+        technique="TLC trace validation (Docs.tla) of recorded deepcopy / edit executions",
+        ref="§2.7, §6 C11"),
+    'C20': dict(
+        text="Docs.tla defines Eq(a,b) = same type, same text, same structure; comparisons are recorded - parse twice, model vs deep copy, model vs copy after exactly one perturbation (every token's text incl. trivia, each optional slot removed, a repeated item removed, a comment unclaimed), a document vs its one-line extensions, same text with different token type - and TLC checks that == is symmetric and equals Eq, that comparing changes nothing, and that equal tokens hash equal (also after value edits).",
+        note="Structure is projected by the harness (classes, filled slots, list shapes, comment ownership); indent_by is not perturbed.",
+        technique="TLC trace validation (Docs.tla Eq) of recorded comparisons",
+        ref="§2.7, §6 C20"),
     'C04': dict(
         text="Attribution calls (claim/unclaim leading, trailing, interleaving, auto-claim) on Layout.tla documents - every single call, auto twice, unclaim/claim pairs, random sequences and hand-back-and-forth sequences between all possible owners of each comment - are recorded and TLC validates every event against CommentOwnership.tla, whose first clauses are that the visible token row and the printed text never change; reads (every property, view index/slice/iteration, ==, hash, deepcopy, print on every reachable model) are executed on every document with the visible token row compared before and after.",
         note="Documents of <= 3-4 lines in both parse modes; mutator methods are not treated as non-edits.",
